@@ -30,6 +30,8 @@ R4 (K7) merge.py: every block that calls _dump_conflicts(...) also records a con
 R5 (K1) InventoryWorkingTree.store_uncommitted: the branch accepts the shelf (branch.store_uncommitted, which refuses when
    changes are already stored) before the tree is reverted by shelf_creator.transform(); restore_uncommitted clears the
    stored changes only after the merge ran.
+R7 (K2) _apply_insertions (bzr and git transforms) reports a path as modified only under `trans_id in self._new_contents`
+   (merge-hashes must not record the user's own text of a merely moved file). Third-round seed.
 Does not decide: that merge results equal the clean three-way merge; polarity of each individual hash comparison.
 """
 
@@ -142,6 +144,28 @@ def run(ctx):
             sufs |= {e.value for e in consts[n.id].elts if isinstance(e, ast.Constant)}
     ctx.check("R6-contents-conflict-keeps-this", f"{CFB}:ContentsConflict.associated_filenames", sufs == {".BASE", ".OTHER"}, f"the helper files removed when a contents conflict is resolved or reverted are .BASE and .OTHER only ({sorted(sufs)})", construct=str(sorted(sufs)), message=f"ContentsConflict.associated_filenames lists {sorted(sufs)}: for a contents conflict the merger has moved the user's file to <path>.THIS, so cleanup() (run by every revert / resolve) deletes the only copy of the uncommitted content, without a backup")
 
+    # ---- R7: only content the transform wrote is reported as "written by the merge" ---------------------------------
+    # TreeTransform._apply_insertions returns modified_paths; Merge3Merger.write_modified hashes each of them into
+    # merge-hashes, and revert skips the backup of a file whose hash is recorded there.  A path is appended only when the
+    # transform created new contents for it: a file that was merely moved still holds the user's text.
+    from ..cfg import build_cfg as _bcfg
+
+    for rel_, cls_ in (("breezy/bzr/transform.py", "InventoryTreeTransform"), ("breezy/git/transform.py", "GitTreeTransform")):
+        f7 = repo.func(rel_, f"{cls_}._apply_insertions")
+        w7 = f"{rel_}:{cls_}._apply_insertions"
+        rets7 = {norm(r.value) for r in walk_own(f7) if isinstance(r, ast.Return) and r.value is not None}
+        ctx.require(len(rets7) == 1, f"{w7}: expected a single returned list, found {sorted(rets7)}")
+        lst = next(iter(rets7))
+        g7 = _bcfg(f7)
+        app = [n.id for n in g7.nodes if any(call_attr(c) in ("append", "extend", "add") and call_recv(c) == lst for c in n.calls())]
+        ctx.require(bool(app), f"{w7}: nothing is appended to {lst}")
+        conds = sorted({norm(c) for n in g7.nodes if n.kind == "test" for c in ast.walk(n.ast) if isinstance(c, ast.Compare) and isinstance(c.ops[0], ast.In) and norm(c.comparators[0]).endswith("._new_contents")})
+        ctx.require(bool(conds), f"{w7}: no membership test in _new_contents found")
+        env7 = {c_: False for c_ in conds}
+        hit7 = sorted(set(app) & g7.assume(env7).reachable_from_entry())
+        ctx.check("R7-modified-means-new-contents", w7, not hit7, f"a path is reported in {lst} only when the transform wrote new contents for it", construct="; ".join(g7.nodes[i].text()[:50] for i in hit7), message=f"{cls_}._apply_insertions reports a path as modified although the transform wrote no new contents for it (a pure rename): write_modified records the hash of the user's own text in merge-hashes as written by the merge, and the next revert deletes that text without a backup")
+
+
 def _enclosing_block(fn, node):
     """Innermost statement list (body/orelse/...) whose statements contain `node`."""
     best = None
@@ -164,6 +188,7 @@ def _enclosing_block(fn, node):
 
 
 MUTANTS = [
+    Mutant("moved files reported as written by the merge", "breezy/bzr/transform.py", "                if trans_id in self._new_contents or self.path_changed(trans_id):\n                    if trans_id in self._new_contents:\n                        modified_paths.append(full_path)\n", "                if trans_id in self._new_contents or self.path_changed(trans_id):\n                    modified_paths.append(full_path)\n", expect="R7-modified-means-new-contents"),
     Mutant("contents-conflict cleanup also removes .THIS", "breezy/bzr/conflicts.py", "        return [self.path + suffix for suffix in (\".BASE\", \".OTHER\")]", "        return [self.path + suffix for suffix in CONFLICT_SUFFIXES]", expect="R6-contents-conflict-keeps-this"),
     Mutant("delete_any made unconditional", WT, "                            if f in files_to_backup:\n                                message = backup(f)\n                            else:\n                                osutils.delete_any(abs_path)\n                                message = f\"deleted {f}\"", "                            osutils.delete_any(abs_path)\n                            message = f\"deleted {f}\"", expect="R2-delete-not-backed-up"),
     Mutant("rmtree without force", WT, "                            if force:\n                                osutils.rmtree(abs_path)", "                            if force or verbose:\n                                osutils.rmtree(abs_path)", expect="R2-rmtree-needs-force"),
